@@ -37,6 +37,10 @@ const (
 	stopNever  = 0
 	stopStop   = 1 // Fetcher.Stop()
 	stopCancel = 2 // cancel the context given to Run / Scan
+	// stopInCallback: Fetcher.Stop() is called from inside the StopAfter-th callback of the call, i.e. on a
+	// fetch worker's goroutine ("stop once enough has been seen"); a Stop() from outside follows at the
+	// planned instant in case fewer callbacks ever happen.
+	stopInCallback = 3
 )
 
 // Case is one scripted log + one fetcher / scanner configuration + one stop instant. Plain data.
@@ -49,8 +53,9 @@ type Case struct {
 	Fetchers   int
 	Continuous bool
 
-	StopKind int
-	StopAtMs int64 // virtual instant of Stop / cancel; < 0: after growth has stopped plus the settling period
+	StopKind  int
+	StopAtMs  int64 // virtual instant of Stop / cancel; < 0: after growth has stopped plus the settling period
+	StopAfter int   // stopInCallback: number of the callback that calls Stop()
 
 	Plans    []Plan
 	STHErrs  []int // error kind of the n-th get-sth call (0 = answer)
@@ -78,9 +83,10 @@ type Case struct {
 
 // Again is the stop plan of the second call on the same object.
 type Again struct {
-	GapMs    int64
-	StopKind int
-	StopAtMs int64 // relative to the start of the second call
+	GapMs     int64
+	StopKind  int
+	StopAtMs  int64 // relative to the start of the second call
+	StopAfter int
 }
 
 func weighted(t *rapid.T, label string, w ...int) int {
@@ -223,15 +229,18 @@ func genCase(t *rapid.T, scan bool) Case {
 		if nErr > 0 {
 			p.ErrLatMs = []int64{0, 0, 3, 40, 700, 2500}[rapid.IntRange(0, 5).Draw(t, "errLat")]
 		}
-		switch weighted(t, "latClass", 6, 3, 4, 1) {
+		switch weighted(t, "latClass", 6, 3, 4, 1, 1) {
 		case 0:
 			p.LatMs = rapid.Int64Range(1, 20).Draw(t, "lat")
 		case 1:
 			p.LatMs = 0
 		case 2:
 			p.LatMs = rapid.Int64Range(20, 900).Draw(t, "lat")
-		default:
+		case 3:
 			p.LatMs = rapid.Int64Range(900, 40000).Draw(t, "lat")
+		default:
+			// a request that hangs for minutes before the log answers (virtual time costs nothing)
+			p.LatMs = spread(t, "latHang", 60000, 600000)
 		}
 		switch weighted(t, "shortClass", 5, 3, 3) {
 		case 0:
@@ -272,7 +281,7 @@ func genCase(t *rapid.T, scan bool) Case {
 	c.PoolStride = rapid.IntRange(1, 7).Draw(t, "poolStride")
 
 	// stop / cancel
-	kinds := []int{stopStop, stopCancel}
+	kinds := []int{stopStop, stopCancel, stopInCallback}
 	if scan {
 		kinds = []int{stopCancel} // the Scanner has no Stop
 	}
@@ -287,6 +296,10 @@ func genCase(t *rapid.T, scan bool) Case {
 		c.StopKind = rapid.SampledFrom(kinds).Draw(t, "stopKind")
 		c.StopAtMs = genStopAt(t, at)
 	}
+	if c.StopKind == stopInCallback {
+		c.StopAtMs = -1
+		c.StopAfter = rapid.IntRange(1, 12).Draw(t, "stopAfter")
+	}
 
 	// re-use: a second call on the same object, and / or a Stop() before the first call
 	if weighted(t, "again", 3, 1) == 1 {
@@ -300,6 +313,10 @@ func genCase(t *rapid.T, scan bool) Case {
 		} else if weighted(t, "againStopped", 2, 1) == 1 {
 			a.StopKind = rapid.SampledFrom(kinds).Draw(t, "againStopKind")
 			a.StopAtMs = genStopAt(t, 0)
+		}
+		if a.StopKind == stopInCallback {
+			a.StopAtMs = -1
+			a.StopAfter = rapid.IntRange(1, 12).Draw(t, "againStopAfter")
 		}
 		c.Again = a
 	}
@@ -386,6 +403,12 @@ func (c *Case) normalise() {
 	if c.Again != nil && c.Again.StopKind == stopStop && c.Again.StopAtMs == 0 {
 		c.Again.StopAtMs = 1
 	}
+	if c.StopKind == stopInCallback && c.StopAfter < 1 {
+		c.StopAfter = 1
+	}
+	if c.Again != nil && c.Again.StopKind == stopInCallback && c.Again.StopAfter < 1 {
+		c.Again.StopAfter = 1
+	}
 }
 
 func (c *Case) finalSize() int64 {
@@ -413,25 +436,25 @@ func (c *Case) cbLat(index int64) time.Duration {
 // once it exists: every successful request yields at least one entry, every start index suffers at most
 // one finite error burst, and each pause of the code's own back-offs is below 60 s (Max 30 s + jitter).
 func (c *Case) bound() time.Duration {
-	n := time.Duration(c.finalSize() + 2)
-	var maxLat, maxErrLat, maxCb time.Duration
-	maxErrs, maxRetr := 0, 0
-	for _, p := range c.Plans {
-		maxLat = max(maxLat, time.Duration(p.LatMs)*time.Millisecond)
-		maxErrLat = max(maxErrLat, time.Duration(p.ErrLatMs)*time.Millisecond)
-		maxErrs = max(maxErrs, len(p.Errs))
-		r := 0
-		for _, k := range p.Errs {
-			if k == errUnavailable {
-				r++
-			}
-		}
-		maxRetr = max(maxRetr, r)
-	}
+	var maxCb time.Duration
 	for _, x := range c.CbLatMs {
 		maxCb = max(maxCb, time.Duration(x)*time.Millisecond)
 	}
-	b := n*(maxLat+maxCb) + n*time.Duration(maxErrs)*maxErrLat + n*time.Duration(maxRetr)*time.Minute
+	// every index is the start of at most one successful request (and of one error burst)
+	per := make([]time.Duration, len(c.Plans))
+	for i, p := range c.Plans {
+		d := time.Duration(p.LatMs)*time.Millisecond + maxCb + time.Duration(len(p.Errs))*time.Duration(p.ErrLatMs)*time.Millisecond
+		for _, k := range p.Errs {
+			if k == errUnavailable {
+				d += time.Minute
+			}
+		}
+		per[i] = d
+	}
+	var b time.Duration
+	for i := int64(0); i < c.finalSize()+2; i++ {
+		b += per[int(i%int64(len(per)))]
+	}
 	b += time.Duration(len(c.STHErrs)+2) * (time.Minute + time.Duration(c.STHLatMs)*time.Millisecond)
 	return b + 2*time.Minute
 }
@@ -441,15 +464,16 @@ func (c *Case) settle() time.Duration { return c.bound() + 20*time.Minute }
 
 // phaseSpec is the stop plan of one Run / Scan call of a case (a case has one call, or two on the same object).
 type phaseSpec struct {
-	StopKind int
-	StopAtMs int64 // relative to the start of the call; < 0: after growth has stopped plus the settling period
-	GapMs    int64 // idle virtual time before the call
+	StopKind  int
+	StopAtMs  int64 // relative to the start of the call; < 0: after growth has stopped plus the settling period
+	GapMs     int64 // idle virtual time before the call
+	StopAfter int
 }
 
 func (c *Case) phases() []phaseSpec {
-	ps := []phaseSpec{{StopKind: c.StopKind, StopAtMs: c.StopAtMs}}
+	ps := []phaseSpec{{StopKind: c.StopKind, StopAtMs: c.StopAtMs, StopAfter: c.StopAfter}}
 	if c.Again != nil {
-		ps = append(ps, phaseSpec{StopKind: c.Again.StopKind, StopAtMs: c.Again.StopAtMs, GapMs: c.Again.GapMs})
+		ps = append(ps, phaseSpec{StopKind: c.Again.StopKind, StopAtMs: c.Again.StopAtMs, GapMs: c.Again.GapMs, StopAfter: c.Again.StopAfter})
 	}
 	return ps
 }
@@ -479,8 +503,16 @@ type outcome struct {
 
 // runState is shared with the callbacks of the code under test.
 type runState struct {
-	returned atomic.Bool  // the current call has returned
-	phase    atomic.Int32 // index of the current call
+	returned atomic.Bool                 // the current call has returned
+	phase    atomic.Int32                // index of the current call
+	stopNow  atomic.Pointer[func() bool] // stopInCallback: asked once per callback, true when this one has to call Stop()
+}
+
+func (s *runState) callbackMustStop() bool {
+	if f := s.stopNow.Load(); f != nil {
+		return (*f)()
+	}
+	return false
 }
 
 // runCase executes one case in a bubble. mk builds the code under test around the scripted log and
@@ -551,6 +583,23 @@ func runCase(t *testing.T, prop string, c *Case, log []truth, mk func(f *fakeLog
 					amu.Unlock()
 					state.phase.Store(int32(i))
 					state.returned.Store(false)
+					state.stopNow.Store(nil)
+					if sp.StopKind == stopInCallback {
+						var calls atomic.Int32
+						ask := func() bool {
+							if calls.Add(1) != int32(sp.StopAfter) {
+								return false
+							}
+							amu.Lock()
+							if !o.stopIssued {
+								o.stopIssued = true
+								o.stopAt = time.Since(fake.start)
+							}
+							amu.Unlock()
+							return true
+						}
+						state.stopNow.Store(&ask)
+					}
 					phCtx, cancel := context.WithCancel(runCtx)
 					done := make(chan struct{})
 					stopperDone := make(chan struct{})
@@ -569,10 +618,12 @@ func runCase(t *testing.T, prop string, c *Case, log []truth, mk func(f *fakeLog
 							return
 						}
 						amu.Lock()
-						o.stopIssued = true
-						o.stopAt = time.Since(fake.start)
+						if !o.stopIssued {
+							o.stopIssued = true
+							o.stopAt = time.Since(fake.start)
+						}
 						amu.Unlock()
-						if sp.StopKind == stopStop && stop != nil {
+						if (sp.StopKind == stopStop || sp.StopKind == stopInCallback) && stop != nil {
 							stop()
 						} else {
 							cancel()
